@@ -60,7 +60,8 @@ Print Assumptions C08_mcp.
    invocation re-issued with --yes is never refused; and with --yes the outcome, the writes and the
    reports of every handler are the same with and without --json.  (The --json --yes half is tied
    to the binary by the `wrote`/areas comparison of the cli stream; the human-mode half is a
-   statement about the handler programs only: no stream runs the binary without --json.) *)
+   statement about the handler programs only: C08 says nothing about human mode, so the cli stream
+   records disagreements of `--yes` runs without --json in the evidence notes, never as an alarm.) *)
 Theorem C08_refusal_only_json_without_yes : forall base f lit,
   guard base f = Some (ConfirmRequired lit) -> f_json f = true /\ f_yes f = false.
 Proof. exact refused_mode. Qed.
